@@ -65,7 +65,7 @@ def run_batch(job):
                 plen = len(spell(seq, r["walk"]))
                 path = "".join(o + n for o, n in r["walk"])
                 nm = sum(1 for o in r["ops"] if o == "=")
-                cols = [r["id"], str(len(left) + len(r["read"]) + len(right)), str(len(left)), str(len(left) + len(r["read"])), "+", path,
+                cols = [r["id"], str(len(left) + len(r["read"]) + len(right)), str(len(left)), str(len(left) + len(r["read"])), "-" if k % 5 == 4 else "+", path,      # realign takes the path as written, whatever the strand column says
                         str(plen), str(r["ps"]), str(r["pe"]), str(nm), str(len(r["ops"])), str((k * 11) % 61)]
                 opt = ["tp:A:P", f"cg:Z:{cg}", "NM:i:2"] if k % 2 else [f"cg:Z:{cg}", "zd:Z:x1"]
                 lines.append("\t".join(cols + opt))
